@@ -67,13 +67,42 @@ pub fn noop_waker() -> Waker {
     unsafe { Waker::from_raw(RawWaker::new(std::ptr::null(), &VT)) }
 }
 
-/// Drive a stream to its end (or `max` items), polling again after every `Pending`.
+struct CountingWaker(std::sync::atomic::AtomicUsize);
+impl std::task::Wake for CountingWaker {
+    fn wake(self: std::sync::Arc<Self>) {
+        self.0.fetch_add(1, std::sync::atomic::Ordering::SeqCst);
+    }
+    fn wake_by_ref(self: &std::sync::Arc<Self>) {
+        self.0.fetch_add(1, std::sync::atomic::Ordering::SeqCst);
+    }
+}
+
+thread_local! {
+    /// set by `drain` when a stream returned `Pending` although nobody had arranged to wake the task (a real task would hang)
+    pub static LOST_WAKEUP: std::cell::Cell<bool> = const { std::cell::Cell::new(false) };
+    /// route the planned chunks through the transport's `BodyStream` wrapper
+    pub static VIA_BODY: std::cell::Cell<bool> = const { std::cell::Cell::new(false) };
+}
+
+/// The byte source of a run: the plan itself, or the plan behind the real `BodyStream` wrapper (what parsers are fed in the helper).
+pub fn source(plan: &[Plan]) -> Pin<Box<dyn Stream<Item = Result<Bytes, BoxError>> + Send>> {
+    if VIA_BODY.with(std::cell::Cell::get) {
+        Box::pin(crate::helpers::BodyStream::from_bytes_stream(PlanStream::new(plan.to_vec())))
+    } else {
+        Box::pin(PlanStream::new(plan.to_vec()))
+    }
+}
+
+/// Drive a stream to its end (or `max` items) the way an executor would: poll again after a `Pending` only because the waker
+/// was invoked (the plan's own `Pending` wakes at once); a `Pending` without any wake-up is recorded in `LOST_WAKEUP`.
 pub fn drain<S: Stream + Unpin>(mut s: S, max: usize) -> (Vec<S::Item>, bool) {
-    let w = noop_waker();
+    let counter = std::sync::Arc::new(CountingWaker(std::sync::atomic::AtomicUsize::new(0)));
+    let w = Waker::from(std::sync::Arc::clone(&counter));
     let mut cx = Context::from_waker(&w);
     let mut out = Vec::new();
     let mut spins = 0usize;
     loop {
+        let before = counter.0.load(std::sync::atomic::Ordering::SeqCst);
         match Pin::new(&mut s).poll_next(&mut cx) {
             Poll::Ready(Some(x)) => {
                 out.push(x);
@@ -83,6 +112,10 @@ pub fn drain<S: Stream + Unpin>(mut s: S, max: usize) -> (Vec<S::Item>, bool) {
             }
             Poll::Ready(None) => return (out, true),
             Poll::Pending => {
+                if counter.0.load(std::sync::atomic::Ordering::SeqCst) == before {
+                    LOST_WAKEUP.with(|f| f.set(true));
+                    return (out, false);
+                }
                 spins += 1;
                 if spins > 100_000 {
                     return (out, false);
@@ -260,6 +293,7 @@ impl Scenario for ParserScenario {
         let mut executed = 0u64;
         let mut pend = 0u64;
         let mut errs_injected = 0u64;
+        let mut via_body_runs = 0u64;
         for (ci, lens) in lens_list.iter().enumerate() {
             // plain, decorated (empty chunks + Pending), and optionally with a mid-stream error
             let mut variants: Vec<Vec<Plan>> = vec![plan_from_lengths(&bytes, lens, &mut r, false, None)];
@@ -271,10 +305,21 @@ impl Scenario for ParserScenario {
                 variants.push(plan_from_lengths(&bytes, lens, &mut r, true, Some(at)));
                 errs_injected += 1;
             }
-            for plan in variants {
+            for (vi, plan) in variants.into_iter().enumerate() {
                 executed += 1;
                 pend += plan.iter().filter(|x| matches!(x, Plan::Pending)).count() as u64;
+                // every other execution feeds the parser through the transport's BodyStream wrapper
+                let via_body = (ci + vi) % 2 == 1;
+                via_body_runs += u64::from(via_body);
+                VIA_BODY.with(|f| f.set(via_body));
+                LOST_WAKEUP.with(|f| f.set(false));
                 let verdict = std::panic::catch_unwind(std::panic::AssertUnwindSafe(|| run_one(&kind, w, buf, &bytes, &plan)));
+                if LOST_WAKEUP.with(std::cell::Cell::get) {
+                    let mut res = RunRes::violation("parser_lost_wakeup",
+                        format!("the stream returned Pending although the byte source was ready and no wake-up had been arranged (a task would hang){}; plan {}", if via_body { " [through BodyStream]" } else { "" }, describe(&plan)), shape, None);
+                    res.extra = json!({"plan": describe(&plan), "via_body": via_body});
+                    return res;
+                }
                 match verdict {
                     Ok(Ok(())) => {}
                     Ok(Err((class, detail))) => {
@@ -293,6 +338,7 @@ impl Scenario for ParserScenario {
         res.probe("chunkings_executed", executed);
         res.probe("pending_injected", pend);
         res.probe("exhaustive_streams", u64::from(exhaustive));
+        res.probe("through_body_stream", via_body_runs);
         res.fault("F4_chunkings", executed);
         res.fault("F3_midstream_error", errs_injected);
         res
@@ -368,7 +414,7 @@ fn rec_single_raw<N: ArrayLength + Send + Sync + 'static>(bytes: &[u8], plan: &[
 where
     generic_array::GenericArray<u8, N>: Send + Sync,
 {
-    let s: SingleRecordStream<Raw<N>, _> = RecordsStream::new(PlanStream::new(plan.to_vec()));
+    let s: SingleRecordStream<Raw<N>, _> = RecordsStream::new(source(plan));
     let (items, end) = drain(Box::pin(s), bytes.len() + 8);
     let mut got = Vec::new();
     let mut err = false;
@@ -394,7 +440,7 @@ fn rec_batch_raw<N: ArrayLength + Send + Sync + 'static>(bytes: &[u8], plan: &[P
 where
     generic_array::GenericArray<u8, N>: Send + Sync,
 {
-    let s: RecordsStream<Raw<N>, _> = RecordsStream::new(PlanStream::new(plan.to_vec()));
+    let s: RecordsStream<Raw<N>, _> = RecordsStream::new(source(plan));
     let (items, end) = drain(Box::pin(s), bytes.len() + 8);
     let mut got = Vec::new();
     let mut err = false;
@@ -428,7 +474,7 @@ fn rec_fallible<T: Serializable + Send + 'static>(bytes: &[u8], plan: &[Plan], b
         b.to_vec()
     };
     if batch {
-        let s: RecordsStream<T, _> = RecordsStream::new(PlanStream::new(plan.to_vec()));
+        let s: RecordsStream<T, _> = RecordsStream::new(source(plan));
         let (items, e) = drain(Box::pin(s), bytes.len() + 8);
         end = e;
         for it in items {
@@ -441,7 +487,7 @@ fn rec_fallible<T: Serializable + Send + 'static>(bytes: &[u8], plan: &[Plan], b
             }
         }
     } else {
-        let s: SingleRecordStream<T, _> = RecordsStream::new(PlanStream::new(plan.to_vec()));
+        let s: SingleRecordStream<T, _> = RecordsStream::new(source(plan));
         let (items, e) = drain(Box::pin(s), bytes.len() + 8);
         end = e;
         for it in items {
@@ -485,7 +531,7 @@ fn ld(bytes: &[u8], plan: &[Plan]) -> V {
         recs.push(body);
         pos += 2 + len;
     }
-    let s: LengthDelimitedStream<Rec, _> = LengthDelimitedStream::new(PlanStream::new(plan.to_vec()));
+    let s: LengthDelimitedStream<Rec, _> = LengthDelimitedStream::new(source(plan));
     let (items, end) = drain(Box::pin(s), bytes.len() + 8);
     let mut got: Vec<Vec<u8>> = Vec::new();
     let mut err = false;
@@ -523,7 +569,7 @@ fn ld(bytes: &[u8], plan: &[Plan]) -> V {
 
 fn buffered(bytes: &[u8], plan: &[Plan], buf: usize) -> V {
     let (avail, injected) = bytes_before_err(plan);
-    let s = BufferedBytesStream::new(PlanStream::new(plan.to_vec()), NonZeroUsize::new(buf).unwrap());
+    let s = BufferedBytesStream::new(source(plan), NonZeroUsize::new(buf).unwrap());
     let (items, end) = drain(Box::pin(s), bytes.len() + 8);
     let mut got = Vec::new();
     let mut err = false;
